@@ -141,6 +141,13 @@ impl<'a> Enumerator<'a> {
         match d {
             D::Never => vec![],
             D::Null => vec![JsVal::Null],
+            D::Undefined | D::Void => vec![JsVal::Undef],
+            D::Date => vec![JsVal::Date(Some(1700000000000))],
+            D::BigInt => vec![JsVal::BigInt("10".into())],
+            D::TypedArray(k) => vec![JsVal::TypedArr(*k, vec![1, 2])],
+            D::Any => vec![JsVal::Null, JsVal::str("~fresh"), JsVal::num("7")],
+            D::Map(_, _) => vec![JsVal::Map(vec![])],
+            D::Set(_) => vec![JsVal::Set(vec![])],
             D::Bool => vec![JsVal::Bool(true), JsVal::Bool(false)],
             D::BoolLit(b) => vec![JsVal::Bool(*b)],
             D::Num => self.vocab.nums.iter().map(|n| JsVal::Num(n.clone())).collect(),
@@ -319,11 +326,17 @@ pub fn pair_feature(env: &Env, a: &D, b: &D) -> Option<&'static str> {
     let mut inter_with_index = false;
     let mut uninhabited_inter = false;
     let mut empty_object_in_union = false;
+    let mut union_of_maps = false;
     let mut recursive_index = false;
     for (i, (_, d)) in env.defs.iter().enumerate() {
         // a definition that reaches itself through an index signature value
         d.any_node(&mut |n| {
-            if let D::Object { index: Some(ix), .. } = n {
+            let container_elem: Option<&D> = match n {
+                D::Object { index: Some(ix), .. } => Some(ix),
+                D::Map(_, x) | D::Set(x) => Some(x),
+                _ => None,
+            };
+            if let Some(ix) = container_elem {
                 let mut queue: Vec<&D> = vec![ix];
                 let mut visited: Vec<usize> = vec![];
                 while let Some(x) = queue.pop() {
@@ -358,7 +371,18 @@ pub fn pair_feature(env: &Env, a: &D, b: &D) -> Option<&'static str> {
                         uninhabited_index = true;
                     }
                 }
+                // Map<K, never> / Set<never> have the same shape: a container over an uninhabited type still has
+                // its empty instance
+                D::Map(_, x) | D::Set(x) => {
+                    let mut en = Enumerator { env, vocab: &vocab, cap: 20, complete: true, budget: 300 };
+                    if en.values(x, 2).is_empty() && en.budget > 0 {
+                        uninhabited_index = true;
+                    }
+                }
                 D::Union(ms) => {
+                    if ms.iter().filter(|m| matches!(r.head(m), D::Map(_, _))).count() >= 2 {
+                        union_of_maps = true;
+                    }
                     let empties = ms.iter().filter(|m| matches!(r.head(m), D::Object { props, index: None } if props.is_empty())).count();
                     let objects = ms.iter().filter(|m| matches!(r.head(m), D::Object { .. } | D::Inter(_))).count();
                     if empties >= 1 && objects >= 2 {
@@ -370,7 +394,7 @@ pub fn pair_feature(env: &Env, a: &D, b: &D) -> Option<&'static str> {
                         inter_with_index = true;
                     }
                     let mut en = Enumerator { env, vocab: &vocab, cap: 20, complete: true, budget: 300 };
-                    if en.values(n, 2).is_empty() && en.complete {
+                    if en.values(n, 2).is_empty() && en.budget > 0 {
                         uninhabited_inter = true;
                     }
                 }
@@ -379,21 +403,47 @@ pub fn pair_feature(env: &Env, a: &D, b: &D) -> Option<&'static str> {
             false
         });
     };
+    // intersections are also looked at in merged form (same-named properties of the members meet there)
+    fn merged_forms(r: &Ref, d: &D, out: &mut Vec<D>, depth: usize) {
+        if depth > 4 {
+            return;
+        }
+        d.any_node(&mut |n| {
+            if let D::Inter(ms) = n {
+                if let Some(m) = r.merge_objects(ms) {
+                    out.push(m);
+                }
+            }
+            false
+        });
+    }
+    let mut extra: Vec<D> = vec![];
+    merged_forms(&r, a, &mut extra, 0);
+    merged_forms(&r, b, &mut extra, 0);
+    for (_, d) in &env.defs {
+        merged_forms(&r, d, &mut extra, 0);
+    }
+    let mut more: Vec<D> = vec![];
+    for m in &extra {
+        merged_forms(&r, m, &mut more, 1);
+    }
+    extra.extend(more);
     visit(a);
     visit(b);
     for (_, d) in &env.defs {
         visit(d);
     }
-    if recursive_index {
-        Some("recursive_index_signature")
-    } else if uninhabited_index {
-        Some("uninhabited_index_value")
-    } else if inter_with_index {
-        Some("intersection_with_index_signature")
-    } else if uninhabited_inter {
-        Some("uninhabited_intersection")
+    for m in &extra {
+        visit(m);
+    }
+    // one family: records / Maps / Sets over an empty value type are taken to be empty, and intersections that
+    // involve index signatures or contradictory members are not analysed consistently
+    if recursive_index || uninhabited_index || inter_with_index || uninhabited_inter {
+        Some("record_emptiness")
     } else if empty_object_in_union {
         Some("empty_object_type_in_union")
+    } else if union_of_maps {
+        Some("union_of_maps")
     } else {
         None
     }
@@ -567,5 +617,640 @@ impl Check for C05 {
             );
         }
         out
+    }
+}
+
+// ------------------------------------------------------------------------------------------------
+// C06 — union / intersection / difference / complement are exact set operations
+// ------------------------------------------------------------------------------------------------
+use beff_core::subtyping::bdd::{Atom, Bdd, BddOps};
+use beff_core::subtyping::dnf::{bdd_to_dnf, dnf_to_bdd};
+use std::rc::Rc;
+
+#[derive(Debug, Clone, Serialize, Deserialize, PartialEq)]
+pub enum BExpr {
+    Atom(usize),
+    True,
+    False,
+    Union(Box<BExpr>, Box<BExpr>),
+    Inter(Box<BExpr>, Box<BExpr>),
+    Diff(Box<BExpr>, Box<BExpr>),
+    Compl(Box<BExpr>),
+}
+
+impl BExpr {
+    fn eval(&self, assignment: u32) -> bool {
+        match self {
+            BExpr::Atom(i) => assignment & (1 << i) != 0,
+            BExpr::True => true,
+            BExpr::False => false,
+            BExpr::Union(a, b) => a.eval(assignment) || b.eval(assignment),
+            BExpr::Inter(a, b) => a.eval(assignment) && b.eval(assignment),
+            BExpr::Diff(a, b) => a.eval(assignment) && !b.eval(assignment),
+            BExpr::Compl(a) => !a.eval(assignment),
+        }
+    }
+    fn build(&self) -> Rc<Bdd> {
+        match self {
+            BExpr::Atom(i) => Rc::new(Bdd::from_atom(Atom::Mapping(*i))),
+            BExpr::True => Rc::new(Bdd::True),
+            BExpr::False => Rc::new(Bdd::False),
+            BExpr::Union(a, b) => a.build().union(&b.build()),
+            BExpr::Inter(a, b) => a.build().intersect(&b.build()),
+            BExpr::Diff(a, b) => a.build().diff(&b.build()),
+            BExpr::Compl(a) => a.build().complement(),
+        }
+    }
+    fn ops(&self) -> usize {
+        match self {
+            BExpr::Union(a, b) | BExpr::Inter(a, b) | BExpr::Diff(a, b) => 1 + a.ops() + b.ops(),
+            BExpr::Compl(a) => 1 + a.ops(),
+            _ => 0,
+        }
+    }
+}
+
+fn eval_bdd(b: &Bdd, assignment: u32) -> bool {
+    match b {
+        Bdd::True => true,
+        Bdd::False => false,
+        Bdd::Node { atom, left, middle, right } => {
+            let i = match atom {
+                Atom::Mapping(i) | Atom::List(i) | Atom::Map(i) | Atom::Set(i) => *i,
+            };
+            let a = assignment & (1 << i) != 0;
+            (a && eval_bdd(left, assignment)) || eval_bdd(middle, assignment) || (!a && eval_bdd(right, assignment))
+        }
+    }
+}
+
+fn gen_bexpr(s: &mut Src, depth: usize, natoms: usize) -> BExpr {
+    if depth == 0 {
+        return match s.below(8) {
+            6 => BExpr::True,
+            7 => BExpr::False,
+            _ => BExpr::Atom(s.below(natoms)),
+        };
+    }
+    match s.below(9) {
+        0 => gen_bexpr(s, 0, natoms),
+        1 | 2 => BExpr::Union(Box::new(gen_bexpr(s, depth - 1, natoms)), Box::new(gen_bexpr(s, depth - 1, natoms))),
+        3 | 4 => BExpr::Inter(Box::new(gen_bexpr(s, depth - 1, natoms)), Box::new(gen_bexpr(s, depth - 1, natoms))),
+        5 | 6 => BExpr::Diff(Box::new(gen_bexpr(s, depth - 1, natoms)), Box::new(gen_bexpr(s, depth - 1, natoms))),
+        _ => BExpr::Compl(Box::new(gen_bexpr(s, depth - 1, natoms))),
+    }
+}
+
+/// returns a description of the first disagreement
+fn check_bexpr(e: &BExpr, natoms: usize) -> Option<(String, u32)> {
+    let bdd = e.build();
+    let dnf = bdd_to_dnf(&bdd);
+    let back = dnf_to_bdd(&dnf);
+    for asg in 0..(1u32 << natoms) {
+        let want = e.eval(asg);
+        if eval_bdd(&bdd, asg) != want {
+            return Some(("bdd_ops".into(), asg));
+        }
+        let dnf_val = dnf.iter().any(|c| {
+            c.positive.iter().all(|a| eval_bdd(&Bdd::from_atom(*a), asg)) && c.negative.iter().all(|a| !eval_bdd(&Bdd::from_atom(*a), asg))
+        });
+        if dnf_val != want {
+            return Some(("bdd_to_dnf".into(), asg));
+        }
+        if eval_bdd(&back, asg) != want {
+            return Some(("dnf_to_bdd".into(), asg));
+        }
+    }
+    None
+}
+
+#[derive(Debug, Clone, Serialize, Deserialize)]
+pub enum C06Case {
+    Diagram { expr: BExpr, natoms: usize },
+    Operands { env: Env, x: D, y: D, values: Vec<JsVal> },
+}
+
+pub fn c06_cfg() -> GenCfg {
+    GenCfg { formats: false, templates: false, max_depth: 3, max_defs: 2, ..GenCfg::default() }
+}
+
+fn in_sem_universe(v: &JsVal) -> bool {
+    match v {
+        JsVal::Func | JsVal::Sym | JsVal::Cyclic | JsVal::CyclicArr => false,
+        JsVal::Arr(xs) | JsVal::Set(xs) => xs.iter().all(in_sem_universe),
+        JsVal::Obj(kv, _) => kv.iter().all(|(_, x)| in_sem_universe(x) && !matches!(x, JsVal::Undef)),
+        JsVal::Map(kv) => kv.iter().all(|(a, b)| in_sem_universe(a) && in_sem_universe(b)),
+        _ => true,
+    }
+}
+
+pub struct C06;
+impl Check for C06 {
+    fn id(&self) -> &'static str {
+        "C06"
+    }
+    fn cases(&self, tier: Tier) -> u32 {
+        match tier {
+            Tier::Quick => 40_000,
+            Tier::Thorough => 1_500_000,
+        }
+    }
+    fn stream_len(&self) -> usize {
+        900
+    }
+    fn threads(&self) -> usize {
+        12
+    }
+    fn rule(&self) -> String {
+        "layer 1 (decision diagrams): expression trees over <=4 atoms, True, False and union/intersection/difference/complement (depth<=6) built with BddOps; oracle = truth table over all 2^n assignments for the diagram ((atom AND left) OR middle OR (NOT atom AND right)), for bdd_to_dnf and for dnf_to_bdd(bdd_to_dnf(.)); plus an exhaustive sub-run over every expression of depth<=2 on 3 atoms. Layer 2 (semantic types): operand pairs from the format-free fragment (incl. Date, bigint, typed arrays, Map, Set, void/undefined, any/never, named recursive types; excluded-literal sets arise through complement/difference) converted in one SemTypeContext; oracle = independent evaluator sem_member over the same atom tables (open and exact record reading): membership in union/intersect/diff/complement/double complement/De Morgan equals the Boolean combination of the memberships in the operands, for type-directed and arbitrary values. Non-trivial = diagram expression with >=3 operations, or operand pair with a value that separates the operands. Distinct = hash(case).".into()
+    }
+    fn assumptions(&self) -> Vec<String> {
+        vec![
+            "sem_member is a homomorphic evaluator: it fixes one reading of record atoms (run twice: open, exact); values whose membership it cannot decide (formats, multi-part templates, void-only exclusions) are skipped".into(),
+            "diagram layer bounds: <=4 atoms, depth<=6".into(),
+        ]
+    }
+    fn health(&self) -> Vec<(&'static str, f64)> {
+        vec![("layer:diagram", 0.3), ("layer:operands", 0.3), ("separating", 0.15)]
+    }
+    fn deterministic(&self, _ctx: &mut Ctx, _tier: Tier) -> Vec<Outcome> {
+        // exhaustive: every expression of depth <= 2 over 3 atoms
+        let leaves: Vec<BExpr> = vec![BExpr::Atom(0), BExpr::Atom(1), BExpr::Atom(2), BExpr::True, BExpr::False];
+        let step = |prev: &Vec<BExpr>| -> Vec<BExpr> {
+            let mut out = prev.clone();
+            for a in prev {
+                out.push(BExpr::Compl(Box::new(a.clone())));
+                for b in prev {
+                    out.push(BExpr::Union(Box::new(a.clone()), Box::new(b.clone())));
+                    out.push(BExpr::Inter(Box::new(a.clone()), Box::new(b.clone())));
+                    out.push(BExpr::Diff(Box::new(a.clone()), Box::new(b.clone())));
+                }
+            }
+            out
+        };
+        let l1 = step(&leaves);
+        let l2 = step(&l1);
+        let mut o = Outcome::default();
+        o.label("exhaustive_depth2_3atoms");
+        for e in &l2 {
+            o.evals += 8;
+            if let Some((what, asg)) = check_bexpr(e, 3) {
+                o.violate(&format!("diagram:{}", what), format!("{} disagrees with the truth table under assignment {:03b}", what, asg), json!({"expr": e, "assignment": asg}));
+                o.sample = Some(serde_json::to_value(C06Case::Diagram { expr: e.clone(), natoms: 3 }).unwrap());
+                break;
+            }
+        }
+        o.nontrivial = Some(fp(&"exhaustive_depth2_3atoms"));
+        if o.sample.is_none() {
+            o.sample = Some(json!({"exhaustive": "all expressions of depth<=2 over 3 atoms", "count": l2.len()}));
+        }
+        vec![o]
+    }
+    fn generate(&self, s: &mut Src, _tier: Tier) -> Value {
+        if s.below(2) == 0 {
+            let natoms = s.range(2, 4);
+            let depth = s.range(1, 6);
+            serde_json::to_value(C06Case::Diagram { expr: gen_bexpr(s, depth, natoms), natoms }).unwrap()
+        } else {
+            let cfg = c06_cfg();
+            let (env, roots) = gen_env_and_roots(s, &cfg, 1);
+            let x = roots[0].clone();
+            let y = match s.below(4) {
+                0 => crate::den::gen_type(s, &cfg, env.defs.len(), 2),
+                1 => mutate_type(&mutate_type(&x, s, &cfg, env.defs.len()), s, &cfg, env.defs.len()),
+                _ => mutate_type(&x, s, &cfg, env.defs.len()),
+            };
+            let (x, y) = (repair_indexed(&x), repair_indexed(&y));
+            let mut values: Vec<JsVal> = vec![];
+            for d in [&x, &y] {
+                for (v, _) in crate::c01::gen_values(&env, d, s, Mode::Open, 6, 6, 3) {
+                    if in_sem_universe(&v) && !values.contains(&v) {
+                        values.push(v);
+                    }
+                }
+            }
+            serde_json::to_value(C06Case::Operands { env, x, y, values }).unwrap()
+        }
+    }
+    fn exec(&self, case: &Value, ctx: &mut Ctx) -> Outcome {
+        let case: C06Case = match serde_json::from_value(case.clone()) {
+            Ok(c) => c,
+            Err(e) => return Outcome::infra(format!("bad case: {}", e)),
+        };
+        let mut out = Outcome::default();
+        match case {
+            C06Case::Diagram { expr, natoms } => {
+                out.label("layer:diagram");
+                out.evals = 1u64 << natoms;
+                if expr.ops() >= 3 {
+                    out.nontrivial = Some(fp(&serde_json::to_string(&expr).unwrap()));
+                    out.sample = Some(json!({"diagram_expression": expr, "atoms": natoms}));
+                }
+                if let Some((what, asg)) = check_bexpr(&expr, natoms) {
+                    out.mismatch(ctx, &format!("diagram:{}", what), format!("{} disagrees with the truth table under assignment {:b}", what, asg), json!({"expr": expr, "natoms": natoms, "assignment": asg}));
+                }
+            }
+            C06Case::Operands { env, x, y, values } => {
+                out.label("layer:operands");
+                let detail = json!({"env": env, "x": x, "y": y});
+                let ans = match ctx.compiler.sem(json!({"sem":"setops","env":env,"x":x,"y":y,"values":values}), if ctx.shrinking { 3 } else { 10 }) {
+                    Ok(v) => v,
+                    Err(CompileFail::Timeout) => {
+                        out.mismatch(ctx, "setops_hang", "set operations did not terminate within 10 s", detail);
+                        return out;
+                    }
+                    Err(CompileFail::Crashed(st)) => {
+                        out.mismatch(ctx, "setops_crash", format!("set operations crashed the process ({})", st), detail);
+                        return out;
+                    }
+                    Err(CompileFail::Infra(e)) => return Outcome::infra(e),
+                };
+                if let Some(p) = ans.get("panic") {
+                    out.mismatch(ctx, &format!("setops_panic:{}", crate::c01::panic_site(p.as_str().unwrap_or(""))), format!("the engine panicked: {}", p), detail);
+                    return out;
+                }
+                if ans.get("convert_err").is_some() {
+                    out.label("no_decision:convert_err");
+                    return out;
+                }
+                out.evals = ans["evals"].as_u64().unwrap_or(0);
+                if let Some(errs) = ans["op_errs"].as_array() {
+                    if !errs.is_empty() {
+                        out.label("op_err");
+                    }
+                }
+                if ans["separating"].as_u64().unwrap_or(0) > 0 {
+                    out.label("separating");
+                    out.nontrivial = Some(fp(&detail.to_string()));
+                    out.sample = Some(json!({"x": x, "y": y, "env": env, "values": values.iter().take(3).map(|v| v.to_tagged()).collect::<Vec<_>>(), "evaluations": out.evals}));
+                }
+                if let Some(ps) = ans["problems"].as_array() {
+                    if let Some(p) = ps.first() {
+                        let op = p["op"].as_str().unwrap_or("?");
+                        out.mismatch(
+                            ctx,
+                            &format!("setop:{}", op),
+                            format!("membership in {}(X,Y) is not the Boolean combination of the memberships in X and Y", op),
+                            json!({"env": env, "x": x, "y": y, "first": p, "all": ps.len()}),
+                        );
+                    }
+                }
+            }
+        }
+        out
+    }
+}
+
+// ------------------------------------------------------------------------------------------------
+// C07 — semantically computed types reach code generation unchanged in meaning
+// ------------------------------------------------------------------------------------------------
+#[derive(Debug, Clone, Serialize, Deserialize)]
+pub struct C07Case {
+    pub env: Env,
+    pub x: D,
+    pub y: D,
+    pub op: String,
+    pub values: Vec<JsVal>,
+    /// also compile `Exclude<X, Y>` / `keyof X` / `X[Y]` from source and run the validator
+    pub source_level: bool,
+}
+
+pub fn c07_cfg() -> GenCfg {
+    GenCfg { formats: false, templates: false, any: false, max_depth: 3, max_defs: 2, ..GenCfg::default() }
+}
+
+pub struct C07;
+impl Check for C07 {
+    fn id(&self) -> &'static str {
+        "C07"
+    }
+    fn cases(&self, tier: Tier) -> u32 {
+        match tier {
+            Tier::Quick => 10_000,
+            Tier::Thorough => 400_000,
+        }
+    }
+    fn stream_len(&self) -> usize {
+        900
+    }
+    fn threads(&self) -> usize {
+        12
+    }
+    fn rule(&self) -> String {
+        "case = operand types X, Y of the format-free fragment (incl. named recursive types; Y usually an edit or a member of X) and an operation (diff = Exclude, intersect, union, keyof, indexed access); the semantic result S is materialised with the frontend's own sequence (semtype_to_runtypes, tail definitions registered, remove_nots_of_intersections_and_empty_of_union). Oracle: (a) the materialised type converted back with to_sem_type is is_same_type with S recomputed in the new context; (b) value level: an independent Runtype evaluator on the materialised head agrees with sem_member(S, v) (open reading, the one the engine prunes with) on type-directed and arbitrary values; (c) printable: no StNot, no empty AnyOf; (d) every Ref resolves to exactly one definition and no helper name is defined twice; and, for a third of the cases, the same expression written in TypeScript (Exclude<X,Y>, keyof X, X[\"k\"]) is compiled and its Node validator agrees with the Boolean combination of the reference memberships (definite verdicts only). Non-trivial = S is not never and not equal to an operand. Distinct = hash(case).".into()
+    }
+    fn assumptions(&self) -> Vec<String> {
+        vec![
+            "both evaluators skip values they cannot decide (void/undefined mixtures, formats)".into(),
+            "source-level Exclude is judged against set difference only where TypeScript's distributive Exclude and set difference coincide (Y removes whole union members of X)".into(),
+        ]
+    }
+    fn health(&self) -> Vec<(&'static str, f64)> {
+        vec![("materialised", 0.5), ("nontrivial", 0.15)]
+    }
+    fn generate(&self, s: &mut Src, _tier: Tier) -> Value {
+        let cfg = c07_cfg();
+        let (env, roots) = gen_env_and_roots(s, &cfg, 1);
+        let mut x = roots[0].clone();
+        let op = ["diff", "diff", "diff", "intersect", "keyof", "indexed", "union"][s.below(7)].to_string();
+        // make X a union most of the time (that is what Exclude is used on)
+        if op == "diff" && !matches!(x, D::Union(_)) && s.chance(3, 4) {
+            let extra = crate::den::gen_type(s, &cfg, env.defs.len(), 1);
+            let extra2 = crate::den::gen_type(s, &cfg, env.defs.len(), 1);
+            x = D::Union(vec![x, extra, extra2]);
+        }
+        let y = match (op.as_str(), &x) {
+            ("diff", D::Union(ms)) if s.chance(2, 3) => {
+                // remove one or two whole members
+                let i = s.below(ms.len());
+                if s.chance(1, 3) && ms.len() > 2 {
+                    D::Union(vec![ms[i].clone(), ms[(i + 1) % ms.len()].clone()])
+                } else {
+                    ms[i].clone()
+                }
+            }
+            ("indexed", _) => match s.below(4) {
+                0 => D::Num,
+                1 => D::Str,
+                2 => D::NumLit("0".into()),
+                _ => D::StrLit(s.pick(&crate::den::KEYS).to_string()),
+            },
+            _ => match s.below(3) {
+                0 => crate::den::gen_type(s, &cfg, env.defs.len(), 2),
+                _ => mutate_type(&x, s, &cfg, env.defs.len()),
+            },
+        };
+        let (x, y) = (repair_indexed(&x), repair_indexed(&y));
+        let mut values: Vec<JsVal> = vec![];
+        for d in [&x, &y] {
+            for (v, _) in crate::c01::gen_values(&env, d, s, Mode::Open, 6, 5, 2) {
+                if in_sem_universe(&v) && !values.contains(&v) {
+                    values.push(v);
+                }
+            }
+        }
+        if op == "keyof" {
+            for k in crate::den::KEYS {
+                values.push(JsVal::str(k));
+            }
+            values.push(JsVal::num("0"));
+        }
+        let source_level = s.chance(1, 3);
+        serde_json::to_value(C07Case { env, x, y, op, values, source_level }).unwrap()
+    }
+    fn exec(&self, case: &Value, ctx: &mut Ctx) -> Outcome {
+        let case: C07Case = match serde_json::from_value(case.clone()) {
+            Ok(c) => c,
+            Err(e) => return Outcome::infra(format!("bad case: {}", e)),
+        };
+        let mut out = Outcome::default();
+        out.label(format!("op:{}", case.op));
+        let detail = json!({"env": case.env, "x": case.x, "y": case.y, "op": case.op});
+        let ans = match ctx.compiler.sem(json!({"sem":"materialize","env":case.env,"x":case.x,"y":case.y,"op":case.op,"values":case.values}), if ctx.shrinking { 3 } else { 10 }) {
+            Ok(v) => v,
+            Err(CompileFail::Timeout) => {
+                // promptness is C04/C05's subject; here a time budget hit is inconclusive
+                out.label("inconclusive:timeout");
+                return out;
+            }
+            Err(CompileFail::Crashed(st)) => {
+                out.mismatch(ctx, "materialize_crash", format!("materialisation crashed the process ({})", st), detail);
+                return out;
+            }
+            Err(CompileFail::Infra(e)) => return Outcome::infra(e),
+        };
+        if let Some(p) = ans.get("panic") {
+            out.mismatch(ctx, &format!("materialize_panic:{}", crate::c01::panic_site(p.as_str().unwrap_or(""))), format!("the engine panicked: {}", p), detail);
+            return out;
+        }
+        for k in ["convert_err", "op_err", "materialize_err", "clean_err"] {
+            if ans.get(k).is_some() {
+                out.label(format!("no_result:{}", k));
+                return out;
+            }
+        }
+        out.label("materialised");
+        out.evals = ans["evals"].as_u64().unwrap_or(0) + 1;
+        let empty = ans["empty"].as_bool().unwrap_or(false);
+        let same = ans["same_as_operand"].as_bool().unwrap_or(false);
+        if !empty && !same {
+            out.label("nontrivial");
+            out.nontrivial = Some(fp(&detail.to_string()));
+            out.sample = Some(json!({"x": case.x, "y": case.y, "op": case.op, "env": case.env, "materialised_as": ans["printed"], "tail_definitions": ans["tail"], "value_evaluations": ans["evals"]}));
+        }
+        if let Some(u) = ans["unprintable"].as_str() {
+            out.mismatch(ctx, &format!("unprintable:{}", u), format!("the materialised type contains {} (printed: {})", u, ans["printed"]), json!({"case": detail, "printed": ans["printed"]}));
+            // the meaning of a bare negation is not defined: nothing else is compared
+            return out;
+        }
+        if let Some(ps) = ans["problems"].as_array() {
+            if let Some(p) = ps.first() {
+                let p = p.as_str().unwrap_or("");
+                let sig = if p.contains("defined twice") { "helper_defined_twice" } else { "dangling_or_ambiguous_reference" };
+                out.mismatch(ctx, sig, p.to_string(), json!({"case": detail, "printed": ans["printed"]}));
+            }
+        }
+        let printed_txt = ans["printed"].as_str().unwrap_or("").to_string();
+        let dropped = ans["dropped_negation"].as_bool().unwrap_or(false);
+        let mut feature = pair_feature(&case.env, &case.x, &case.y);
+        if feature.is_none() && case.op == "intersect" {
+            // the operation itself builds the intersection: look at it in merged form as well
+            feature = pair_feature(&case.env, &D::Inter(vec![case.x.clone(), case.y.clone()]), &D::Never);
+        }
+        if case.op == "intersect" {
+            let r = Ref::new(&case.env, Mode::Open);
+            let ix = |d: &D| match r.head(d) {
+                D::Object { index: Some(_), .. } => true,
+                D::Union(ms) => ms.iter().any(|m| matches!(r.head(m), D::Object { index: Some(_), .. })),
+                _ => false,
+            };
+            if ix(&case.x) || ix(&case.y) {
+                feature = Some("record_emptiness");
+            }
+        }
+        if printed_txt.contains("[key") && printed_txt.contains(" & ") {
+            // a record meets an object inside the materialised result (e.g. same-named properties of two
+            // intersection members)
+            feature = Some("record_emptiness");
+        }
+        if feature.is_none() && printed_txt.matches("Map<").count() >= 2 {
+            feature = Some("union_of_maps");
+        }
+        let suffix = match (dropped, feature) {
+            (true, _) => ":dropped_negation".to_string(),
+            (false, Some(f)) => format!(":{}", f),
+            (false, None) => String::new(),
+        };
+        if ans["roundtrip"] == json!(false) && printed_txt.contains("undefined") {
+            // optional properties are materialised as `k?: undefined | T`: the engine tells absent from undefined,
+            // the value sets are the same (judged by (b)); not a change of meaning
+            out.label("roundtrip_differs_only_by_optional_undefined");
+        } else if ans["roundtrip"] == json!(false) {
+            out.mismatch(ctx, &format!("roundtrip_differs{}", suffix), format!("the materialised type converted back is not the same semantic type (printed: {})", ans["printed"]), json!({"case": detail, "printed": ans["printed"]}));
+        }
+        if let Some(ps) = ans["value_problems"].as_array() {
+            if let Some(p) = ps.first() {
+                out.mismatch(ctx, &format!("value_membership_differs{}", suffix), format!("a value is in the semantic type but not in its materialisation, or vice versa (printed: {})", ans["printed"]), json!({"case": detail, "first": p, "printed": ans["printed"]}));
+            }
+        }
+        // ---- source level ----
+        // (not where a known engine-level finding already explains the case: the validator inherits it)
+        if case.source_level && out.violation.is_none() && out.known.is_empty() && feature.is_none() && !dropped && ans["unprintable"].is_null() {
+            self.source_level(&case, ctx, &mut out);
+        }
+        out
+    }
+}
+
+impl C07 {
+    fn source_level(&self, case: &C07Case, ctx: &mut Ctx, out: &mut Outcome) {
+        use crate::render::{render_program, RenderCfg};
+        // only shapes whose TypeScript meaning is beyond doubt
+        let mut r = Ref::new(&case.env, Mode::Open);
+        r.ts_nullish = false;
+        let (expr_kind, roots): (&str, Vec<(String, D)>) = match case.op.as_str() {
+            "diff" => {
+                // `void` is not a set of values in TypeScript: Exclude over it is not judged
+                let has_void = |d: &D| d.any_node(&mut |n| matches!(n, D::Void));
+                if has_void(&case.x) || has_void(&case.y) || case.env.defs.iter().any(|(_, d)| has_void(d)) {
+                    return;
+                }
+                ("exclude", vec![("X".into(), case.x.clone()), ("Y".into(), case.y.clone())])
+            }
+            "keyof" => match r.head(&case.x) {
+                D::Object { index: None, props } if !props.is_empty() => ("keyof", vec![("X".into(), case.x.clone())]),
+                _ => return,
+            },
+            "indexed" => match (r.head(&case.x), &case.y) {
+                (D::Object { index: None, props }, D::StrLit(k)) if props.iter().any(|p| p.key == *k && !p.optional) => ("indexed", vec![("X".into(), case.x.clone())]),
+                _ => return,
+            },
+            _ => return,
+        };
+        // TypeScript's Exclude is distributive: it coincides with set difference when every union member of X is
+        // either inside Y or disjoint from it -- judged per value below (values in a member that only partly overlaps
+        // Y are skipped)
+        let mut src_data = vec![0u32; 0];
+        src_data.clear();
+        let mut s2 = Src::new(&src_data);
+        let (prog, _) = render_program(&case.env, &roots, RenderCfg::plain(), &mut s2, "");
+        // replace the buildParsers block by the operator expression over the aliases
+        let decls: String = prog.lines().take_while(|l| !l.starts_with("export const Parsers")).collect::<Vec<_>>().join("\n");
+        let xs = roots.iter().map(|(n, _)| n.clone()).collect::<Vec<_>>();
+        let mut text = decls;
+        // root expressions printed as aliases
+        let mut s3 = Src::new(&src_data);
+        let (prog2, rendered) = render_program(&case.env, &roots, RenderCfg::plain(), &mut s3, "");
+        let _ = prog2;
+        for (n, t) in xs.iter().zip(rendered.roots.iter()) {
+            text.push_str(&format!("\ntype {} = {};", n, t));
+        }
+        let expr = match expr_kind {
+            "exclude" => "Exclude<X, Y>".to_string(),
+            "keyof" => "keyof X".to_string(),
+            _ => format!("X[{}]", match &case.y { D::StrLit(k) => crate::render::ts_string(k), _ => unreachable!() }),
+        };
+        text.push_str(&format!("\nexport const Parsers = parse.buildParsers<{{ R: {} }}>();\n", expr));
+        let mut scratch = Outcome::default();
+        let code = match crate::c01::compile_case(&text, &mut scratch, ctx, "C07") {
+            Some(c) => c,
+            None => {
+                if scratch.infra.is_some() {
+                    out.infra = scratch.infra;
+                }
+                out.label("source_level:compile_failed_skipped");
+                return;
+            }
+        };
+        let q = json!({"q":"validateMany","parser":"R","values": case.values.iter().map(|v| v.to_tagged()).collect::<Vec<_>>(), "optsList":[null]});
+        let resp = match crate::c01::node_case(ctx, Some(&code), vec![q]) {
+            Ok(r) => r,
+            Err(e) => {
+                out.infra = Some(e);
+                return;
+            }
+        };
+        if resp.get("loadError").is_some() {
+            out.label("source_level:load_error_skipped");
+            return;
+        }
+        out.label("source_level:ran");
+        // TypeScript's Exclude<X,Y> keeps exactly the union members of X that are not assignable to Y.  Where every
+        // member is wholly inside Y or wholly outside it (judged by complete enumeration), that is also the set
+        // difference beff computes: the expected denotation is the union of the members that stay.
+        let exclude_result: Option<D> = if expr_kind == "exclude" {
+            let members: Vec<D> = match r.head(&case.x) {
+                D::Union(ms) => ms.clone(),
+                other => vec![other.clone()],
+            };
+            let vocab = vocab_of(&case.env, &case.x, &case.y);
+            let mut keep: Vec<D> = vec![];
+            let mut decidable = true;
+            for m in &members {
+                let mut en = Enumerator { env: &case.env, vocab: &vocab, cap: 40, complete: true, budget: 3000 };
+                let vals = en.values(m, 2);
+                if !en.complete || vals.is_empty() {
+                    decidable = false;
+                    break;
+                }
+                // assignability is a compile-time question: TypeScript's reading of null/undefined
+                let mut rts = Ref::new(&case.env, Mode::Open);
+                rts.ts_nullish = true;
+                let verdicts: Vec<Tri> = vals.iter().map(|w| rts.member(&case.y, w)).collect();
+                if verdicts.iter().all(|t| *t == Tri::Yes) {
+                    // removed
+                } else if verdicts.iter().all(|t| *t == Tri::No) {
+                    keep.push(m.clone());
+                } else {
+                    decidable = false;
+                    break;
+                }
+            }
+            if decidable { Some(if keep.is_empty() { D::Never } else { D::Union(keep) }) } else { None }
+        } else {
+            None
+        };
+        if expr_kind == "exclude" && exclude_result.is_none() {
+            out.label("source_level:exclude_not_member_wise");
+            return;
+        }
+        let m = &resp["results"][0]["m"];
+        for (j, v) in case.values.iter().enumerate() {
+            let got = match m[j][0].as_i64() {
+                Some(1) => true,
+                Some(0) => false,
+                _ => continue,
+            };
+            let expected = match expr_kind {
+                "exclude" => match &exclude_result {
+                    Some(rd) => r.member(rd, v),
+                    None => continue,
+                },
+                "keyof" => match r.head(&case.x) {
+                    D::Object { props, .. } => Tri::from_bool(matches!(v, JsVal::Str(s) if props.iter().any(|p| p.key == *s))),
+                    _ => continue,
+                },
+                _ => match (r.head(&case.x), &case.y) {
+                    (D::Object { props, .. }, D::StrLit(k)) => match props.iter().find(|p| p.key == *k) {
+                        Some(p) => r.member(&p.ty, v),
+                        None => continue,
+                    },
+                    _ => continue,
+                },
+            };
+            if expected == Tri::Unspec {
+                continue;
+            }
+            out.evals += 1;
+            if Tri::from_bool(got) != expected {
+                out.mismatch(
+                    ctx,
+                    &format!("source_level:{}", expr_kind),
+                    format!("the validator of `{}` {} a value it should {}", expr, if got { "accepts" } else { "rejects" }, if got { "reject" } else { "accept" }),
+                    json!({"program": text, "value": v, "validate": got}),
+                );
+                return;
+            }
+        }
     }
 }
